@@ -1,30 +1,97 @@
 //go:build verif
 
 // Contracts for package app, property C07: mempool checks are isolated from consensus execution.
+//
 // The shared stores are singletons whose state pointer WithState re-aims; any CheckTx may have left them aimed at
-// the check state. `aimcheck e` asks that at every direct call of a store method inside the body the store's state
-// pointer equals e (the deliver state) — the entry heap is arbitrary, so the proof cannot depend on where a store
-// was left aimed by an earlier call.
+// the check state. A function with `aimcheck e` is verified in the engine's aim mode: the entry heap is arbitrary
+// (no store is known to be aimed anywhere), and at every call the receiver and every argument that is a store, a
+// master store or a context struct holding stores must be aimed at e (the deliver state) — unless the callee is one
+// of the re-aiming functions (With*/New*, which are inlined) or is itself verified with `aimcheck` (then its aim must
+// be e). Callees are abstracted by the set of aim fields they can write (computed on the call graph).
+// Only clauses tagged C07 are used in this mode; the ordinary contracts of the same functions are ignored.
 // Comment-only file, read by /verif/govc.
 
 package app
 
+// ---- the consensus entry points
+
+//@ func (*App).chainInitializer$1
+//@   aimcheck app.Context.deliver                // C07.aim
+//@   aimexempt transactions.TransactionStore     // the internal-transaction queue lives in its own State, never re-aimed by Action()
+
 //@ func (*App).blockBeginner$1
 //@   aimcheck app.Context.deliver                // C07.aim
-//@   requires app != nil
+//@   aimexempt transactions.TransactionStore     // the internal-transaction queue lives in its own State, never re-aimed by Action()
+
+//@ func (*App).txDeliverer$1
+//@   aimcheck app.Context.deliver                // C07.aim
+//@   aimexempt transactions.TransactionStore     // the internal-transaction queue lives in its own State, never re-aimed by Action()
 
 //@ func (*App).blockEnder$1
 //@   aimcheck app.Context.deliver                // C07.aim
-//@   requires app != nil
+//@   aimexempt transactions.TransactionStore     // the internal-transaction queue lives in its own State, never re-aimed by Action()
 
 //@ func (*App).commitor$1
 //@   aimcheck app.Context.deliver                // C07.aim
-//@   requires app != nil
+
+// ---- their helpers in package app that receive the context (not a store): checked on their own, entry aims arbitrary
 
 //@ func (*App).applyUpdate
 //@   aimcheck app.Context.deliver                // C07.aim
-//@   requires app != nil
 
 //@ func ManageVotes
 //@   aimcheck ctx.deliver                        // C07.aim
-//@   requires ctx != nil
+
+//@ func addMaturedAmountsToBalance
+//@   aimcheck ctx.deliver                        // C07.aim
+
+// handleBlockRewards and handleDelegationRewards use appCtx.validators and appCtx.govern as their caller left them:
+// blockBeginner has re-aimed both at the deliver state by then (validators for Setup, govern for CheckMaliciousValidators).
+//@ func handleBlockRewards
+//@   aimcheck appCtx.deliver                     // C07.aim
+//@   requires aimed(appCtx.validators, appCtx.deliver) && aimed(appCtx.govern, appCtx.deliver)    // C07.rewards-env
+
+//@ func handleDelegationRewards
+//@   aimcheck appCtx.deliver                     // C07.aim
+//@   requires aimed(appCtx.govern, appCtx.deliver)                                                // C07.rewards-env
+
+//@ func matureDelegationRewards
+//@   aimcheck appCtx.deliver                     // C07.aim
+
+//@ func ExpireProposals
+//@   aimcheck ctx.deliver                        // C07.aim
+//@   aimalso ctx.transaction.State               // the queue's own State (committed here), not a chain state
+//@   aimexempt transactions.TransactionStore     // the internal-transaction queue lives in its own State
+
+//@ func FinalizeProposals
+//@   aimcheck ctx.deliver                        // C07.aim
+//@   aimalso ctx.transaction.State               // the queue's own State (committed here), not a chain state
+//@   aimexempt transactions.TransactionStore     // the internal-transaction queue lives in its own State
+
+//@ func doEthTransitions
+//@   aimcheck deliver                            // C07.aim
+
+// ---- the two functions that build a context of aimed stores: everything they hand out is aimed at the requested state
+
+//@ func (*context).Action
+//@   aimcheck state                              // C07.aim
+//@   ensures aimed(result, state)                // C07.action-aims
+
+//@ func (*context).ValidatorCtx
+//@   aimcheck ctx.deliver                        // C07.aim
+//@   ensures aimed(result, ctx.deliver)          // C07.validatorctx-aims
+//@   ensures aimed(ctx.balances, ctx.deliver) && aimed(ctx.feePool, ctx.deliver) && aimed(ctx.delegators, ctx.deliver) && aimed(ctx.evidenceStore, ctx.deliver) && aimed(ctx.govern, ctx.deliver) && aimed(ctx.validators, ctx.deliver)   // C07.validatorctx-aims
+
+// ---- the mempool check itself: what it can leave changed in the long-lived objects (call-graph frame; static calls,
+// interface calls by class hierarchy, function values by signature; writes into objects the writer allocated itself do
+// not count). Besides the aim pointers (closed by the aimcheck clauses above) and the check State's own overlay, a
+// CheckTx must not write the consensus side's in-memory state.
+//@ func (*App).txChecker$1
+//@   nowrite app.context.deliver, app.context.check, app.context.chainstate, app.context.balances, app.context.govern, app.context.validators, app.context.feePool, app.context.proposalMaster, app.context.rewardMaster, app.context.stateDB, app.App.header     // C07.checktx-frame
+//@   nowrite identity.ValidatorStore.queue, identity.ValidatorStore.totalPower, identity.ValidatorStore.lastActive, identity.ValidatorStore.maliciousValidators, identity.ValidatorStore.byzantine, identity.ValidatorStore.lastHeight, identity.ValidatorStore.proposer, identity.ValidatorStore.pendingEvents, utils.PriorityQueue.items     // C07.checktx-frame
+//@   nowrite rewards.RewardCumulativeStore.calculator, rewards.RewardCalculator.cached, rewards.RewardStore.rewardOptions, rewards.RewardCumulativeStore.rewardOptions       // C07.checktx-frame
+//@   nowrite vm.CommitStateDB.thash, vm.CommitStateDB.bhash, vm.CommitStateDB.logs, vm.CommitStateDB.logSize, vm.CommitStateDB.txCount, vm.CommitStateDB.preimages, vm.CommitStateDB.accessList, vm.CommitStateDB.nextRevisionID     // C07.checktx-frame-evm
+// The in-memory option caches of the stores: a PROPOSAL_FINALIZE transaction (any account may sign one) whose proposal
+// is a passed, completed configuration update runs the governance update functions in CheckTx; those call SetupOpt /
+// SetOptions on the shared store objects, so the node that checked it switches options before the others do.
+//@   nowrite fees.Store.feeOpt, ons.DomainStore.opt, governance.ProposalStore.proposalOptions      // C07.checktx-options
